@@ -48,6 +48,7 @@ func init() {
 	importProp("C05", "C18", map[string]string{"R18.11": "R5.15"}, "(R5.15 = C18 R18.11) every exit restores the stable Service's selector if it was pinned, whatever the spec says now.")
 	extendProp("C19", "(R19.10) ProgressingRolloutFinalizer builds the finalizer from the whole Rollout name (no truncation, trimming or hashing): distinct Rollouts sharing a TrafficRouting hold distinct finalizers.", r6C19)
 	extendProp("C12", "(R12.10) IsCompletedPod answers false only for a phase that is neither Failed nor Succeeded; (R12.11) ListOwnedPods keeps a pod only under IsOwnedBy(...) == true evaluated for that pod.", r6C12)
+	extendProp("C08", "(R8.12) util.EqualIgnoreHash — the 'did the pod template change' test of all four admission handlers — answers true only as the outcome of a deep comparison; R8.8 now accepts 'template unchanged' as a reason to skip only where no rollout-id is configured.", r7C08)
 	extendProp("C08", "(R8.10) both admission handlers answer 'this workload is not selected by the webhook configuration' only after every entry and rule was examined (or the entry's selector cannot be parsed): the first entry whose rule matches does not decide alone.", r6C08)
 }
 
@@ -1280,4 +1281,48 @@ func r6C12(c *Ctx) {
 		}
 		c.Ob("R12.11", "ListOwnedPods#kept-on-own-verdict", fn.Pos(), n > 0 && bad == "", "every kept pod passed IsOwnedBy itself", bad+ifs(n == 0, "append to the result not found"))
 	}
+}
+
+// ---------------------------------------------------------------- C08 R8.12 (round 7)
+
+func r7C08(c *Ctx) {
+	p := c.Prog
+	c.Rule("R8.12", "two pod templates are reported equal only by comparing them", 1)
+	fn := p.Func("pkg/util.EqualIgnoreHash")
+	if fn == nil {
+		c.Unresolved("R8.12", "util.EqualIgnoreHash")
+		return
+	}
+	n := 0
+	bad := ""
+	for _, b := range fn.Blocks {
+		if len(b.Instrs) == 0 || b == fn.Recover {
+			continue
+		}
+		ret, ok := b.Instrs[len(b.Instrs)-1].(*ssa.Return)
+		if !ok || len(ret.Results) != 1 {
+			continue
+		}
+		for _, lf := range BoolLeaves(ret.Results[0], b) {
+			// (BoolLeaves splits a non-constant result into its two outcomes, each with the fact that the
+			// expression had that outcome)
+			k, isC := lf.V.(*ssa.Const)
+			if isC && constText(k) != "true" {
+				continue
+			}
+			n++
+			fs := append(append([]Fact{}, lf.Facts...), FactsFor(fn).At(b)...)
+			if !isC {
+				fs = append(fs, FactOf(lf.V, true))
+			}
+			compared := HasFact(fs, func(f Fact) bool {
+				return f.Op == "==" && f.R != nil && f.R.Name == "true" && f.L != nil && f.L.Op == "call" && (strings.Contains(f.L.Name, "DeepEqual") || strings.Contains(f.L.Name, "DeepDerivative"))
+			})
+			if !compared {
+				bad = "the return at " + p.Pos(ret.Pos()) + " answers 'equal' without a deep comparison of the two templates having said so"
+			}
+		}
+	}
+	c.Ob("R8.12", "EqualIgnoreHash#equal-means-compared", fn.Pos(), n > 0 && bad == "", "true is the outcome of a deep comparison (hash label removed)",
+		ifs(bad != "", bad+": a pod-template-hash label is user text in the webhook's view — two different templates carrying the same value are taken for one revision and the release change is admitted unheld")+ifs(n == 0, "no result found"))
 }
